@@ -10,6 +10,7 @@ package jsonschema
 import (
 	"errors"
 	"fmt"
+	"math"
 	"net/url"
 	"reflect"
 	"regexp"
@@ -337,6 +338,24 @@ func (s *Schema) checkLocal(report func(error), infos map[*Schema]*resolvedInfo)
 	// As a special case, we can validate the 2020-12 meta-schema.
 	if s.Vocabulary != nil && s.Schema != draft202012SchemaVersion {
 		addf("cannot validate a schema with $vocabulary")
+	}
+
+	// The numeric keywords must be finite: a JSON document cannot express anything
+	// else, and validation compares them as exact rationals, which NaN and the
+	// infinities are not (Validate would panic).
+	for _, kw := range []struct {
+		name string
+		val  *float64
+	}{
+		{"multipleOf", s.MultipleOf},
+		{"minimum", s.Minimum},
+		{"maximum", s.Maximum},
+		{"exclusiveMinimum", s.ExclusiveMinimum},
+		{"exclusiveMaximum", s.ExclusiveMaximum},
+	} {
+		if kw.val != nil && (math.IsNaN(*kw.val) || math.IsInf(*kw.val, 0)) {
+			addf("%s: %v is not a finite number", kw.name, *kw.val)
+		}
 	}
 
 	info := infos[s]
